@@ -463,7 +463,9 @@ func r04_4send(c *Ctx, rule string) {
 	finCalls := map[string]bool{}
 	eng.Instrs(loop, func(in ssa.Instruction) {
 		if call, ok := in.(*ssa.Call); ok && c.sendsPacket(call, "PACKET_FIN") {
-			finCalls[c.reg(call)] = true
+			for _, k := range c.sendResultKeys(loop, call, func(ci ssa.CallInstruction) bool { return c.sendsPacket(ci, "PACKET_FIN") }) {
+				finCalls[k] = true
+			}
 		}
 	})
 	x.Target = func(in ssa.Instruction, st *eng.State) bool {
@@ -741,7 +743,8 @@ func r04_6(c *Ctx, rule string) {
 		for _, call := range eng.Calls(fn) {
 			name := c.P.CalleeName(call)
 			isDataCb := strings.Contains(name, "DiskWriterOpt.AsyncDataCb") || strings.Contains(name, "DiskWriterOpt.SyncDataCb")
-			if !want[name] && !isDataCb {
+			_, isFwd := c.sendForwarderArg(call)
+			if !want[name] && !isDataCb && !isFwd {
 				continue
 			}
 			if name == "param:fn" && c.name(fn) != "fsutil.getWalkerFn$1" {
